@@ -5,6 +5,7 @@ import Genshi.Model.TmplExtract
 import Genshi.Model.TmplText
 import Genshi.Model.TmplScan
 import Genshi.Model.TmplRaw
+import Genshi.Model.TmplPrint
 namespace Driver.C04
 open Genshi Genshi.Tmpl Genshi.Sexp
 
@@ -230,6 +231,12 @@ def handle : List Sexp → Option Sexp
           -- the construction-time pipeline as the code runs it, per template language
           if markup then pure (.list ((compileFlat nodes).map cevS))
           else pure (.list ((compileText nodes).map cevS))
+      | "printtext" =>
+          -- the specification printer of text templates and the side condition of the inversion
+          -- theorem (lenient / strict reading)
+          if markup then pure (.atom "unmodelled")
+          else pure (.list [.str (if lang == "oldtext" then Print.nodesOld nodes else Print.nodesNew nodes),
+                            ofBool (Print.nodesOk false nodes), ofBool (Print.nodesOk true nodes)])
       | _ => none
   | args => handleRaw args
 
